@@ -6,7 +6,10 @@ Import ListNotations.
 
 (* program points at which the thread owns requests_lock *)
 Definition io_holds (p : iopc) : bool :=
-  match p with IoRC1 | IoRC2 | IoRCloop | IoRClen | IoRCadd | IoRCrel => true | _ => false end.
+  match p with
+  | IoRC1 | IoRC2 | IoRCloop | IoRCapp | IoRCappX | IoRClen | IoRCadd | IoRCrel => true
+  | _ => false
+  end.
 Definition wk_holds (p : wpc) : bool :=
   match p with
   | WClose1 _ | WClose2 _ | WClose3 _ | WKeep1 _ | WKeep2 _ | WKeep3 _ | WKeepAdd _ | WKeepE _ | WKeep5 _ => true
@@ -44,7 +47,7 @@ Definition flags_ok (s : state) : Prop :=
 (* no service() invocation can start any more *)
 Definition Closed (s : state) : Prop :=
   flags_ok s /\
-  (io s <> IoRCloop /\ io s <> IoRClen /\ io s <> IoRCadd) /\
+  (io s <> IoRCloop /\ io s <> IoRCapp /\ io s <> IoRCappX /\ io s <> IoRClen /\ io s <> IoRCadd) /\
   queue s = 0 /\
   (forall w, starter (wk s w) = false) /\
   (reqs s = [] \/ exists w, at_close2 (wk s w) = true).
@@ -63,6 +66,7 @@ Record Inv (s : state) : Prop := mkInv {
   i_reqs_wk : forall w, prepop (wk s w) = true -> reqs s <> [];
   i_reqs_sd : sd s <> SdIdle -> reqs s <> [];
   i_m2 : io s = IoM2 -> reqs s = [];
+  i_appx : io s = IoRCappX -> reqs s = [];
   i_mret : mret s = IoTop \/ mret s = IoSel;
   i_cwf : (cwf s = true \/ io s = IoHW1b \/ io s = IoHW2 \/ io s = IoHW3) -> gdec s = true;
   i_safe : gdec s = true -> conn s = false \/ Closed s \/ sd s = SdC2;
